@@ -1,10 +1,10 @@
 (* C16 / C20 - the parts of the musl probe that the first model (PlatModel.v) left to an oracle, as the code is now:
    (1) sys.executable is read through a regular file (ElfDisk.v: offsets/sizes the platform cannot serve);
-   (2) subprocess.run([ld], ...) is made OUTSIDE the try block of _get_musl_version: an embedded NUL in the PT_INTERP path
-       raises ValueError, a path that does not exist raises FileNotFoundError - both escape _musllinux.platform_tags,
-       _linux_platforms and platform_tags();
-   (3) functools.lru_cache: _get_glibc_version() is one cell, _get_musl_version(executable) is keyed by the path; an
-       exception is not memoised.
+   (2) subprocess.run([ld], ...) raises ValueError for an embedded NUL in the PT_INTERP path and FileNotFoundError for a path
+       that does not exist; _get_musl_version catches both (OSError, ValueError) and answers None: a loader that cannot be
+       run means "no musl" - no musllinux tags, never an exception (repaired in /repo, 020ba8a; it used to escape);
+   (3) functools.lru_cache: _get_glibc_version() is one cell, _get_musl_version(executable) is keyed by the path (a None
+       answer - including the one of a loader that cannot be run - is memoised like any other).
    Definitions only (extracted); theorems in PlatLoaderProofs.v. *)
 From Coq Require Import List Arith NArith Bool.
 Import ListNotations.
@@ -14,14 +14,12 @@ Open Scope N_scope.
 (* ---------------------------------------------------------------- running the loader *)
 (* the system as subprocess.run sees it: which loader paths exist (le_all: every NUL-free path does), and what a loader prints *)
 Record loader_env := { le_all : bool; le_existing : list bytes; le_stderr : str }.
-Inductive exn := ExValueError | ExFileNotFound.
-Inductive outcome (A : Type) := Done (a : A) | Raised (e : exn).
-Arguments Done {A}. Arguments Raised {A}.
+Inductive loader_r := LRan (stderr : str) | LValueError | LFileNotFound.          (* what subprocess.run([ld], ...) does *)
 Definition has_nul (b : bytes) : bool := existsb (N.eqb 0) b.
-Definition run_loader (le : loader_env) (ld : bytes) : outcome str :=
-  if has_nul ld then Raised ExValueError                                   (* ValueError: embedded null byte *)
-  else if le_all le || mem ld (le_existing le) then Done (le_stderr le)
-  else Raised ExFileNotFound.
+Definition run_loader (le : loader_env) (ld : bytes) : loader_r :=
+  if has_nul ld then LValueError                                           (* ValueError: embedded null byte *)
+  else if le_all le || mem ld (le_existing le) then LRan (le_stderr le)
+  else LFileNotFound.
 
 (* the loader path _get_musl_version hands to subprocess.run (None: it returns None before running anything) *)
 Definition musl_loader_disk (lim : file_limits) (exe : option bytes) : option bytes :=
@@ -33,63 +31,59 @@ Definition musl_loader_disk (lim : file_limits) (exe : option bytes) : option by
       | Ok e => match interpreter_disk lim f e with ISome ld => if contains s_musl ld then Some ld else None | _ => None end
       end
   end.
-(* _get_musl_version(executable), uncached *)
-Definition get_musl_version_x (lim : file_limits) (exe : option bytes) (le : loader_env) : outcome (option (nat * nat)) :=
+(* _get_musl_version(executable), uncached: `except (OSError, ValueError): return None` around the run *)
+Definition get_musl_version_x (lim : file_limits) (exe : option bytes) (le : loader_env) : option (nat * nat) :=
   match musl_loader_disk lim exe with
-  | None => Done None
-  | Some ld => match run_loader le ld with Done err => Done (parse_musl_version err) | Raised x => Raised x end
+  | None => None
+  | Some ld => match run_loader le ld with LRan err => parse_musl_version err | LValueError | LFileNotFound => None end
   end.
 Definition musl_render (v : option (nat * nat)) (archs : list str) : list str := map (render3 s_musllinux_) (musl_struct v archs).
 (* _musllinux.platform_tags(archs) *)
-Definition musllinux_tags_x (lim : file_limits) (exe : option bytes) (le : loader_env) (archs : list str) : outcome (list str) :=
-  match get_musl_version_x lim exe le with Done v => Done (musl_render v archs) | Raised x => Raised x end.
+Definition musllinux_tags_x (lim : file_limits) (exe : option bytes) (le : loader_env) (archs : list str) : list str :=
+  musl_render (get_musl_version_x lim exe le) archs.
 
-(* _linux_platforms / platform_tags() consumed as a whole (list(...)): an exception of the musl probe escapes *)
-Definition linux_platforms_x (is_32bit : bool) (get_platform : str) (e : menv) (lim : file_limits) (le : loader_env) : outcome (list str) :=
+(* _linux_platforms / platform_tags() *)
+Definition linux_platforms_x (is_32bit : bool) (get_platform : str) (e : menv) (lim : file_limits) (le : loader_env) : list str :=
   let linux := normalize_string get_platform in
-  if negb (starts_with s_linux_ linux) then Done [linux] else
+  if negb (starts_with s_linux_ linux) then [linux] else
   let linux := if is_32bit then (if streq linux s_linux_x86_64 then s_linux_i686
                                  else if streq linux s_linux_aarch64 then s_linux_armv8l else linux) else linux in
   let arch := snd (split1 95 linux) in
   let archs := if streq arch s_armv8l then [s_armv8l; s_armv7l] else [arch] in
-  match musllinux_tags_x lim (m_exe e) le archs with
-  | Done mt => Done (manylinux_tags e archs ++ mt ++ map (fun a => s_linux_ ++ a) archs)
-  | Raised x => Raised x
-  end.
-Definition platform_tags_x (p : penv) (lim : file_limits) (le : loader_env) : option (outcome (list str)) :=
-  if streq (pe_system p) s_Darwin then option_map Done (mac_default (pe_mac_ver p) (pe_mac_cpu p) (pe_mac_sub p))
-  else if streq (pe_system p) s_iOS then option_map Done (ios_default (pe_ios_release p) (pe_multiarch p))
+  manylinux_tags e archs ++ musllinux_tags_x lim (m_exe e) le archs ++ map (fun a => s_linux_ ++ a) archs.
+Definition platform_tags_x (p : penv) (lim : file_limits) (le : loader_env) : option (list str) :=
+  if streq (pe_system p) s_Darwin then mac_default (pe_mac_ver p) (pe_mac_cpu p) (pe_mac_sub p)
+  else if streq (pe_system p) s_iOS then ios_default (pe_ios_release p) (pe_multiarch p)
   else if streq (pe_system p) s_Linux then Some (linux_platforms_x false (pe_get_platform p) (pe_menv p) lim le)
-  else Some (Done [normalize_string (pe_get_platform p)]).
+  else Some [normalize_string (pe_get_platform p)].
 
 (* ---------------------------------------------------------------- the memoised probes across calls *)
 Definition musl_cache := list (list N * option (nat * nat)).             (* executable path -> memoised answer *)
 Fixpoint cache_get (k : list N) (c : musl_cache) : option (option (nat * nat)) :=
   match c with [] => None | (k', v) :: t => if streq k' k then Some v else cache_get k t end.
-(* a call _get_musl_version(k) whose uncached answer would be [now]; an exception is not stored *)
-Definition cached_musl (c : musl_cache) (k : list N) (now : outcome (option (nat * nat))) : musl_cache * outcome (option (nat * nat)) :=
+(* a call _get_musl_version(k) whose uncached answer would be [now] *)
+Definition cached_musl (c : musl_cache) (k : list N) (now : option (nat * nat)) : musl_cache * option (nat * nat) :=
   match cache_get k c with
-  | Some v => (c, Done v)
-  | None => match now with Done v => ((k, v) :: c, Done v) | Raised x => (c, Raised x) end
+  | Some v => (c, v)
+  | None => ((k, now) :: c, now)
   end.
 Record pstate := { ps_glibc : probe_cache; ps_musl : musl_cache }.
 Definition pstate0 : pstate := {| ps_glibc := None; ps_musl := [] |}.
 (* one step of a battery: sys.executable = the file named [key] with content m_exe, then _manylinux.platform_tags(archs) and
    _musllinux.platform_tags(archs) - no cache_clear() in between.  _get_glibc_version() is reached only when the ABI check passes. *)
 Record pstep := { st_key : list N; st_menv : menv; st_lim : file_limits; st_le : loader_env }.
-Definition step_probes (archs : list str) (s : pstate) (st : pstep) : pstate * (list str * outcome (list str)) :=
+Definition step_probes (archs : list str) (s : pstate) (st : pstep) : pstate * (list str * list str) :=
   let e := st_menv st in
   let abi_ok := have_compatible_abi (m_exe e) archs in
   let '(g', gv) := if abi_ok then cached_probe (ps_glibc s) (get_glibc_version (m_confstr e) (m_ctypes e)) else (ps_glibc s, None) in
   let many := map render_mtag (many_struct abi_ok archs gv (m_policy e)) in
   let '(m', mv) := cached_musl (ps_musl s) (st_key st) (get_musl_version_x (st_lim st) (m_exe e) (st_le st)) in
-  ({| ps_glibc := g'; ps_musl := m' |},
-   (many, match mv with Done v => Done (musl_render v archs) | Raised x => Raised x end)).
-Fixpoint run_steps (archs : list str) (s : pstate) (sts : list pstep) : list (list str * outcome (list str)) :=
+  ({| ps_glibc := g'; ps_musl := m' |}, (many, musl_render mv archs)).
+Fixpoint run_steps (archs : list str) (s : pstate) (sts : list pstep) : list (list str * list str) :=
   match sts with [] => [] | st :: t => let '(s', o) := step_probes archs s st in o :: run_steps archs s' t end.
 (* the keyed cache alone: a sequence of calls (key, what an uncached call would answer now) *)
 Fixpoint run_keyed (c : musl_cache) (l : list (list N * option (nat * nat))) : list (option (nat * nat)) :=
   match l with
   | [] => []
-  | (k, now) :: t => let '(c', r) := cached_musl c k (Done now) in (match r with Done v => v | Raised _ => now end) :: run_keyed c' t
+  | (k, now) :: t => let '(c', r) := cached_musl c k now in r :: run_keyed c' t
   end.
